@@ -29,6 +29,7 @@ import WntrModel.Lemmas.AmlCsrIf
 import WntrModel.Lemmas.AmlRealFull
 import WntrModel.Model.EvalShape
 import WntrModel.Gen.EvaluatorShape
+import WntrModel.Gen.OverloadShape
 import WntrModel.Lemmas.AmlNan
 import Mathlib.Analysis.Normed.Field.Lemmas
 
@@ -691,5 +692,61 @@ theorem jacobian_nan_unselected_branch :
     eval nanOps nanEnv (D 0 nanWitnessTree) = .fin 1 ∧
     ((reverseSd nanWitness).bind (jacOf · 0)).map (fun s => eval nanOps nanEnv s.toExpr) = some .nan := by
   refine ⟨?_, ?_, ?_, ?_, ?_⟩ <;> decide +kernel
+
+
+/-! ## 14. the overload shortcuts of the model ARE the source's (translator tie) -/
+
+def fwdOf (name : String) (a : Expr) (y : Rat) : Option (Option SVal) :=
+  (Gen.overloads.find? (fun sh => sh.name == name)).bind fun sh => sh.applyFwd a y
+
+def reflOf (name : String) (x : Rat) (b : Expr) : Option (Option SVal) :=
+  (Gen.overloads.find? (fun sh => sh.name == name)).bind fun sh => sh.applyRefl x b
+
+/-- **overloads_forward_are_model.** The table regenerated from the CURRENT `ExpressionBase.__add__ … __pow__` (the
+`if other == k: return …` shortcuts in source order and the final `_binary_operation_helper` call), interpreted, is the
+model's `sAdd / sSub / sMul / sDiv / sPow` on (aml object, native number) — for every object and every number. An edited
+shortcut (a changed constant, `return self` instead of `0`, a dropped `raise`) changes the table and breaks this theorem. -/
+theorem overloads_forward_are_model (a : Expr) (y : Rat) :
+    fwdOf "__add__" a y = some (sBin .add (.ex a) (.num y)) ∧
+    fwdOf "__sub__" a y = some (sBin .sub (.ex a) (.num y)) ∧
+    fwdOf "__mul__" a y = some (sBin .mul (.ex a) (.num y)) ∧
+    fwdOf "__truediv__" a y = some (sBin .div (.ex a) (.num y)) ∧
+    fwdOf "__div__" a y = some (sBin .div (.ex a) (.num y)) ∧
+    fwdOf "__pow__" a y = some (sBin .pow (.ex a) (.num y)) := by
+  refine ⟨?_, ?_, ?_, ?_, ?_, ?_⟩ <;>
+    (by_cases h0 : y = 0
+     · subst h0
+       simp [fwdOf, Gen.overloads, OverloadShape.applyFwd, OverloadShape.pick, binOfName, sBin, sAdd, sSub, sMul, sDiv, sPow]
+     · have h0' : ¬ (0 : Rat) = y := fun e => h0 e.symm
+       by_cases h1 : y = 1
+       · subst h1
+         simp [fwdOf, Gen.overloads, OverloadShape.applyFwd, OverloadShape.pick, binOfName, sBin, sAdd, sSub, sMul, sDiv, sPow]
+       · have h1' : ¬ (1 : Rat) = y := fun e => h1 e.symm
+         simp [fwdOf, Gen.overloads, OverloadShape.applyFwd, OverloadShape.pick, binOfName, sBin, sAdd, sSub, sMul, sDiv, sPow,
+           h0, h1, h0', h1']
+         try (cases a <;> simp [sBinObjNum, sNumNum, ratBin, h0]))
+
+/-- **overloads_reflected_are_model.** The same for `__radd__ … __rpow__` on (native number, aml object); `Float(x) <op> self`
+is the object–object overload. (An edit such as `__rsub__` returning `self` for `0 − e` breaks this theorem.) -/
+theorem overloads_reflected_are_model (x : Rat) (b : Expr) :
+    reflOf "__radd__" x b = some (sBin .add (.num x) (.ex b)) ∧
+    reflOf "__rsub__" x b = some (sBin .sub (.num x) (.ex b)) ∧
+    reflOf "__rmul__" x b = some (sBin .mul (.num x) (.ex b)) ∧
+    reflOf "__rtruediv__" x b = some (sBin .div (.num x) (.ex b)) ∧
+    reflOf "__rdiv__" x b = some (sBin .div (.num x) (.ex b)) ∧
+    reflOf "__rpow__" x b = some (sBin .pow (.num x) (.ex b)) := by
+  refine ⟨?_, ?_, ?_, ?_, ?_, ?_⟩ <;>
+    (by_cases h0 : x = 0
+     · subst h0
+       simp [reflOf, Gen.overloads, OverloadShape.applyRefl, OverloadShape.pick, binOfName, sBin, sAdd, sSub, sMul, sDiv, sPow]
+     · have h0' : ¬ (0 : Rat) = x := fun e => h0 e.symm
+       by_cases h1 : x = 1
+       · subst h1
+         simp [reflOf, Gen.overloads, OverloadShape.applyRefl, OverloadShape.pick, binOfName, sBin, sAdd, sSub, sMul, sDiv, sPow]
+         try (cases b <;> simp [sBinObj, sNumNum, ratBin])
+       · have h1' : ¬ (1 : Rat) = x := fun e => h1 e.symm
+         simp [reflOf, Gen.overloads, OverloadShape.applyRefl, OverloadShape.pick, binOfName, sBin, sAdd, sSub, sMul, sDiv, sPow,
+           h0, h1, h0', h1']
+         try (cases b <;> simp [sBinObj, sNumNum, ratBin, h0]))
 
 end Wntr.Aml
